@@ -701,5 +701,13 @@ def run(ctx):
     g.check_gate(ctx, B + "::from_fen", "parser")
     g.check_gate(ctx, BUILDER + "::build", "builder")
     check_validators(ctx, f, g.L, g)
+    # "every board the library hands out" includes the successors made by play and null_move: their clocks stay in the
+    # gate's range only if the transfer functions are min(old+1, 100) / reset and saturating +1 (owned by C02 and C14;
+    # re-run here)
+    from . import c02, c14
+    expl_ = ctx.explanation
+    c02.run(ctx)
+    c14.run(ctx)
+    ctx.explanation = expl_
     ctx.assumptions += ["C05 for the meaning of king_moves/between tables; C03 for the definition of checkers and pins",
                         "acceptance of every reachable position by the castling / en-passant / checker validators is not decided (see Not decided)"]
